@@ -499,9 +499,10 @@ def run(ctx):
     elif not r3.findings:
         raise AnalysisError("idiom changed: loader selection in Reaper.__init__ not recognised")
     # final names: the Reaper's file list is built from the result template
-    files = single_def(init, "files")
-    need(files is not None, "anchor lost: Reaper.__init__ 'files'")
-    txt = norm(files[1])
+    from .batching import as_comprehension, reaper_files_expr
+    fx = reaper_files_expr(ctx, init)
+    need(fx is not None, "anchor lost: Reaper.__init__ 'files'")
+    txt = norm(as_comprehension(ctx, init, fx))
     if "RSLT_NM.format(" in txt and "'results'" in txt:
         r3.ok("the reaper addresses final result names: %s" % txt[:90])
     else:
